@@ -29,7 +29,7 @@ Print Assumptions C06_inject_known.
 
 Theorem C06_inject_user_known : forall s t u v,
   StronglySorted Z.lt (keys (pool s)) -> In (tid t) (keys (pool s)) ->
-  keys (pool (fst (step s (InjectUser t u v)))) = keys (pool s).
+  keys (pool (fst (step s (InjectUser ep t u v)))) = keys (pool s).
 Proof. exact inject_user_known_l. Qed.
 Print Assumptions C06_inject_user_known.
 
@@ -45,7 +45,7 @@ Print Assumptions C06_inject_foreign_admits.
 (* user submissions must also satisfy the soft and user rules *)
 Theorem C06_inject_user_admits : forall s t uo v u g,
   StronglySorted Z.lt (keys (pool s)) ->
-  In (u, g) (pool (fst (step s (InjectUser t uo v)))) -> ~ In (tid u) (keys (pool s)) ->
+  In (u, g) (pool (fst (step s (InjectUser ep t uo v)))) -> ~ In (tid u) (keys (pool s)) ->
   u = t /\ uo = true /\ hard_ok (unspent s) t v = true /\ v_soft v = true /\ g = true.
 Proof. exact inject_user_admits_l. Qed.
 Print Assumptions C06_inject_user_admits.
@@ -54,7 +54,7 @@ Print Assumptions C06_inject_user_admits.
 Theorem C06_inject_rejected : forall s o,
   match o with
   | InjectForeign t v => hard_ok (unspent s) t v = false
-  | InjectUser t u v => u && hard_ok (unspent s) t v && v_soft v = false
+  | InjectUser ep t u v => u && hard_ok (unspent s) t v && v_soft v = false
   | _ => False
   end -> fst (step s o) = s.
 Proof. exact inject_rejected_l. Qed.
@@ -66,7 +66,7 @@ Print Assumptions C06_inject_rejected.
 Theorem C06_pool_entries_were_admitted : forall U ops t,
   In t (map fst (pool (run (init U) ops))) ->
   exists ops1 o ops2 v, ops = ops1 ++ o :: ops2 /\
-    (o = InjectForeign t v \/ (o = InjectUser t true v /\ v_soft v = true)) /\
+    (o = InjectForeign t v \/ (o = InjectUser ep t true v /\ v_soft v = true)) /\
     hard_ok (unspent (run (init U) ops1)) t v = true.
 Proof. exact pool_entries_were_admitted_l. Qed.
 Print Assumptions C06_pool_entries_were_admitted.
